@@ -92,8 +92,9 @@ func (p *parser) parse() (e *expr.Expression, err error) {
 				// we should always check if the current top of the stack is another token
 				// if it isn't then we have an implicit AND we need to inject.
 				if len(p.stack) > 0 {
-					_, isTopToken := p.stack[len(p.stack)-1].(lex.Token)
-					if !isTopToken {
+					topToken, isTopToken := p.stack[len(p.stack)-1].(lex.Token)
+					// a closing bracket ends an operand just like a parsed expression does
+					if !isTopToken || anyClosingBracket(topToken) {
 						implAnd := lex.Token{Typ: lex.TAnd, Val: "AND"}
 						// act as if we just saw an AND and reduce the current token stack
 						// until the AND may be shifted, exactly as for an explicit AND.
